@@ -2330,8 +2330,14 @@ impl<'a> Model<'a> {
                 let ws = self.workbook.worksheet_mut(sheet)?;
                 for r in row..row + height {
                     for c in column..column + width {
-                        // We ignore errors here
-                        let _ = ws.cell_clear_contents(r, c);
+                        // Only the anchor and the cells it spilled into: a cell of the range
+                        // that was given other content since the last evaluation is not ours
+                        let own = (r, c) == (row, column)
+                            || matches!(ws.cell(r, c), Some(Cell::SpillCell { a, .. }) if *a == (row, column));
+                        if own {
+                            // We ignore errors here
+                            let _ = ws.cell_clear_contents(r, c);
+                        }
                     }
                 }
             }
